@@ -6,6 +6,7 @@ from contracts import c05_fva_driver as CD
 from contracts import c14_fva_pool as CP
 from contracts import c14_essential as CE
 from contracts import c16_samplers as CX
+from contracts import c06_multi_deletion as CM
 from props._generic import run_property, replay_with_driver
 
 LEVEL = "other"
@@ -17,7 +18,9 @@ def run(rep):
                  more=[(["deletion._init_worker", "_reaction_deletion_worker", "_gene_deletion_worker"], C6.HOOKS_W),
                        (["_init_worker"], CD.HOOKS), (["flux_variability_analysis@pool"], CP.HOOKS),
                        (["find_essential_genes", "find_essential_reactions"], CE.HOOKS),
-                       (["mp_init", "_sample_chain"], CX.HOOKS_C), (["OptGPSampler.sample"], CX.HOOKS_O)], lemmas=CP.lemmas, explanation=(
+                       (["mp_init", "_sample_chain"], CX.HOOKS_C), (["OptGPSampler.sample"], CX.HOOKS_O),
+                       (["_multi_deletion", "_entities_ids", "_element_lists"], CM.HOOKS), (list(CM.WRAPPERS), CM.HOOKS_W)],
+                 lemmas=lambda: CP.lemmas() + CM.lemmas(), explanation=(
         "Contracts cannot speak about schedules; they remove the need to: what is proved is that each task is a function of (worker "
         "state at task entry, item) and hands the worker back in the state it found it. _fva_step: the LP is solved with exactly the "
         "requested reaction's +forward -reverse added, the returned pair is (requested id, solver value), and every objective "
@@ -52,6 +55,18 @@ def run(rep):
         "threshold), :].ids (data flow through the opaque algebra); the returned set is exactly the entities named by its entries, "
         "and - with the ASSUMED row-wise semantics of isna / < / | / .loc and the assumed frame shape (one row per entity, ids = "
         "{id}, ids known to the model) - exactly the entities with a row whose growth is NaN or below the threshold (both inclusions). "
+        "_multi_deletion (single / double gene / reaction deletion, all five methods) is proved for ANY `processes` against the same "
+        "assumed pool contract (plus assumed contracts for product / frozenset - a finite set C of combination identities with a "
+        "ghost enumeration - and for the lazy ordered map; the per-combination call of the deletion function is a recorded call "
+        "with the frame of its proved contract): processes = min(processes or configuration.processes, len(C)), the pool is used "
+        "exactly when that is > 1, with chunksize = len(C) // processes proved >= 1; in BOTH branches the frame has exactly one row "
+        "per combination of C, the row of c holds exactly (set(c), growth, status) the deletion function returned for c - stated "
+        "through the inverse permutation (loop invariant over the arrival index), hence independent of the completion order, of "
+        "`processes` and of the chunk size -, every row belongs to a combination, nothing occurs twice, and the deletion function "
+        "(through the proved worker contract on the worker's copy of the model) is called exactly once per combination; the pool "
+        "is left again also when a task raises. Glue lemmas over that post-condition: serial == parallel for every combination, "
+        "and the row of c in a request over C == the row in the one-element request {c}, under `same combination -> same result "
+        "of the deletion function`. The four public wrappers pass processes (and everything else) through unchanged. "
         "The Pool itself, OS scheduling and pickling are outside any sequential contract "
         "language: bounded driver (processes 1-8, permutations, chunk sizes, seeded per-task delays injected into the workers, "
         "single-item calls, exact oracle; reproducibility of parallel sampling). "
@@ -73,7 +88,12 @@ def run(rep):
                  "pandas DataFrame.at[key, column] = value writes exactly that cell (recorded per column)",
                  "single_gene_deletion / single_reaction_deletion as recorded calls returning a frame with one row per entity, ids = {id} "
                  "of a gene / reaction of the model (assumed)", "row-wise semantics of Series.isna, <, |, DataFrame.loc[mask, :] "
-                 "(assumed contract pandas.rowwise)"])
+                 "(assumed contract pandas.rowwise)",
+                 "itertools.product / frozenset / set as a finite set of opaque combination identities with a ghost enumeration (assumed "
+                 "contract itertools.product+frozenset)", "map is lazy and ordered (assumed contract builtins.map)",
+                 "_reaction_deletion / _gene_deletion on a frozenset of ids as a recorded call with the frame of its proved contract "
+                 "(assumed contract deletion-call)", "add_moma / add_room as recorded calls that may raise (proved under C09)",
+                 "the same combination has the same deletion result (hypothesis of the _multi_deletion glue lemmas; C04 / C06 kernel)"])
 
 
 def replay(payload):
